@@ -153,6 +153,11 @@ Proof.
 Qed.
 Lemma F2_nil {A B} (R : A -> B -> Prop) l : Forall2 R [] l -> l = [].
 Proof. intros H. inversion H. reflexivity. Qed.
+Lemma F2_single {A B} (R : A -> B -> Prop) a l : Forall2 R [a] l -> exists b, l = [b] /\ R a b.
+Proof.
+  intros H. inversion H as [|x y lx ly Hxy Hl]; subst. apply F2_nil in Hl. subst ly.
+  exists y. split; [reflexivity|exact Hxy].
+Qed.
 Lemma hrel_refl n m : hrel n m m.
 Proof. apply F2_refl. intros x. left. reflexivity. Qed.
 Lemma hrel_trans n a b c : hrel n a b -> hrel n b c -> hrel n a c.
@@ -683,7 +688,7 @@ Proof.
     destruct (resolvable ip port); [apply lb_set_primary|apply lb_refl]. }
   clearbody p2.
   destruct (alookup key (ps_table p2)) as [f|]; cbn [fst x_p]; [|eapply lb_trans; eassumption].
-  set (p3 := if is_final_response m1 then remove_transport tr host port trans_id p2 else p2).
+  set (p3 := if is_final_response m1 then remove_transport tr (if fx_resolved_key (e_fx e) then ip else host) port trans_id p2 else p2).
   assert (L3 : lb_eq p2 p3) by (subst p3; destruct (is_final_response m1); [apply lb_remove_transport|apply lb_refl]).
   clearbody p3.
   pose proof (lb_failover_send (e_li e) (lc_addr (e_lc e)) (pa_received_support (wire_proxy (e_lc e))) f
@@ -1554,6 +1559,81 @@ Proof.
   - eapply mem_trans; [exact M2|]. repeat split.
 Qed.
 
+(* ---- the Route set of a request: nothing left to follow once the proxy's own entry is consumed ---- *)
+Definition pr (v : hval) : option (list route_param) := match v with HRoute l => Some l | _ => None end.
+Definition sem_route (v : hval) : res (list route_param) := semg pr parse_route v.
+Definition own_route (c : cfg) (from : stransport) (rp : route_param) : bool :=
+  match na_addr (r_addr rp) with
+  | ASip u => Z.eqb (sip_uri_get_port u) (t_port from) && is_same_address c (u_host u) (t_addr from)
+  | AAbs _ => false
+  end.
+(* no Route header at all, or exactly one Route header with exactly one entry, which designates
+   the receiving listener (tryRemoveTopRoute consumes it) *)
+Definition route_consumed (c : cfg) (from : stransport) (m : message) : Prop :=
+  hvals (s2b "Route") (m_headers m) = [] \/
+  exists v0 rp, hvals (s2b "Route") (m_headers m) = [v0] /\ sem_route v0 = Ok [rp] /\ own_route c from rp = true.
+Lemma sem_route_vrel v v' : vrel (s2b "Route") v v' -> sem_route v' = sem_route v.
+Proof. intros [->|H]; [reflexivity|]. apply (proj1 ok_route). exact H. Qed.
+Lemma route_consumed_keeps N c from m m' : keeps N m m' -> In (s2b "Route") N ->
+  route_consumed c from m -> route_consumed c from m'.
+Proof.
+  intros [_ K] HN HC. specialize (K _ HN). unfold hrel in K.
+  remember (hvals (s2b "Route") (m_headers m')) as l' eqn:EL.
+  destruct HC as [H|(v0 & rp & H & S & O)]; rewrite H in K.
+  - left. rewrite <- EL. apply (F2_nil _ _ K).
+  - right. destruct (F2_single _ _ _ K) as (b & E1 & Hab).
+    exists b, rp. split; [rewrite <- EL; exact E1|].
+    split; [rewrite (sem_route_vrel v0 b Hab); exact S|exact O].
+Qed.
+Lemma typed_get_vals {A} n (proj : hval -> option A) parse inj m :
+  hvals n (m_headers (fst (typed_get n proj parse inj m))) =
+  match hvals n (m_headers m) with
+  | v :: r => match proj v with
+              | Some _ => v :: r
+              | None => match v with
+                        | HRaw s => match parse s with Ok a => inj a :: r | _ => v :: r end
+                        | _ => v :: r
+                        end
+              end
+  | [] => []
+  end.
+Proof.
+  unfold typed_get. pose proof (get_header_hvals n (m_headers m)) as E.
+  destruct (hvals n (m_headers m)) as [|v r] eqn:Ev;
+    destruct (get_header n (m_headers m)) as [h|]; cbn [option_map hd_error] in E; try discriminate.
+  - cbn [fst]. exact Ev.
+  - injection E as E. rewrite E. destruct (proj v); [cbn [fst]; exact Ev|].
+    destruct v as [s|l|l|l|f|f|c]; cbn [fst]; try exact Ev.
+    destruct (parse s) as [a| |]; cbn [fst]; try exact Ev.
+    unfold set_val. cbn [m_headers with_headers]. rewrite hvals_update_same, Ev. reflexivity.
+Qed.
+Lemma try_remove_consumes c from m : route_consumed c from m ->
+  hvals (s2b "Route") (m_headers (fst (mtry (try_remove_top_route c from) m))) = [].
+Proof.
+  intros [H|(v0 & rp & H & S & O)]; rewrite mtry_fst; unfold try_remove_top_route, mbind.
+  - assert (G : s_get_route m = (m, Err)).
+    { unfold s_get_route, typed_get. pose proof (get_header_hvals (s2b "Route") (m_headers m)) as Eh.
+      rewrite H in Eh. destruct (get_header (s2b "Route") (m_headers m)); [discriminate|reflexivity]. }
+    rewrite G. cbn [fst]. exact H.
+  - pose proof (typed_get_vals (s2b "Route") pr parse_route HRoute m) as G.
+    pose proof (typed_get_snd (s2b "Route") pr parse_route HRoute m) as Sn.
+    change (typed_get (s2b "Route") pr parse_route HRoute) with s_get_route in G, Sn.
+    rewrite H in G, Sn. cbn [hd_error] in Sn. fold (sem_route v0) in Sn. rewrite S in Sn.
+    destruct (s_get_route m) as [m1 r]. cbn [fst snd] in G, Sn. subst r.
+    assert (G1 : hvals (s2b "Route") (m_headers m1) = [HRoute [rp]]).
+    { rewrite G. unfold sem_route, semg in S. destruct v0 as [s|l|l|l|f|f|c0]; cbn in S; try discriminate.
+      - cbn [pr]. rewrite S. reflexivity.
+      - injection S as ->. reflexivity. }
+    unfold own_route in O. destruct (na_addr (r_addr rp)) as [u|s]; [|discriminate]. rewrite O.
+    unfold s_pop_route, mbind.
+    pose proof (typed_get_vals (s2b "Route") pr parse_route HRoute m1) as G2.
+    pose proof (typed_get_snd (s2b "Route") pr parse_route HRoute m1) as S2.
+    change (typed_get (s2b "Route") pr parse_route HRoute) with s_get_route in G2, S2.
+    rewrite G1 in G2, S2. cbn [pr hd_error semg] in G2, S2.
+    destruct (s_get_route m1) as [m2 r2]. cbn [fst snd] in G2, S2. subst r2.
+    unfold mmodify. cbn [fst m_headers with_headers]. rewrite hvals_remove_same, G2. reflexivity.
+Qed.
+
 (* ---- a request through handleRawMessage: what reaches HandleMessage ---- *)
 Definition pm_tail (e : env) (peer : bytes) (peer_port : Z) (from : stransport) (m3 : message) (p1 : pstate)
            (l1 : learned) (x : ctx) : res ctx :=
@@ -1569,7 +1649,7 @@ Lemma pm_tail_spec e peer port from m3 p1 l1 x x' m :
   keeps NP m m3 -> is_request m = true -> lb_eq (x_p x) p1 ->
   pm_tail e peer port from m3 p1 l1 x = Ok x' ->
   exists m4 x1, keeps NQ m m4 /\
-                (hvals (s2b "Route") (m_headers m) = [] -> hvals (s2b "Route") (m_headers m4) = []) /\
+                (route_consumed (e_cfg e) from m -> hvals (s2b "Route") (m_headers m4) = []) /\
                 lb_eq (x_p x) (x_p x1) /\ x_outs x1 = x_outs x /\ x' = fst (handle_message e from m4 x1).
 Proof.
   intros K R LB. unfold pm_tail.
@@ -1579,19 +1659,14 @@ Proof.
   assert (R4 : is_response m4 = false) by (rewrite (k_is_response NQ m m4 K04); unfold is_response; rewrite R; reflexivity).
   rewrite R4. intros H. injection H as <-.
   eexists m4, _. split; [exact K04|]. split; [|split; [|split; [|reflexivity]]]; [|exact LB|reflexivity].
-  intros HR. destruct K as [_ K]. specialize (K (s2b "Route") ltac:(in_names)). unfold hrel in K. rewrite HR in K.
-  assert (E : hvals (s2b "Route") (m_headers m3) = []) by (apply (F2_nil _ _ K)).
-  subst m4. unfold mtry, try_remove_top_route, mbind.
-  assert (G : s_get_route m3 = (m3, Err)).
-  { unfold s_get_route, typed_get. pose proof (get_header_hvals (s2b "Route") (m_headers m3)) as Eh.
-    rewrite E in Eh. destruct (get_header (s2b "Route") (m_headers m3)); [discriminate|reflexivity]. }
-  rewrite G. cbn [fst]. exact E.
+  intros HR. subst m4. apply try_remove_consumes.
+  apply (route_consumed_keeps NP (e_cfg e) from m m3 K); [in_names|exact HR].
 Qed.
 
 Lemma process_message_request e peer port from rs tcp m x x' : is_request m = true ->
   process_message e peer port from rs tcp m x = Ok x' ->
   exists m4 x1, keeps NQ m m4 /\
-                (hvals (s2b "Route") (m_headers m) = [] -> hvals (s2b "Route") (m_headers m4) = []) /\
+                (route_consumed (e_cfg e) from m -> hvals (s2b "Route") (m_headers m4) = []) /\
                 lb_eq (x_p x) (x_p x1) /\ x_outs x1 = x_outs x /\ x' = fst (handle_message e from m4 x1).
 Proof.
   intros R. unfold process_message. rewrite R. cbn [andb].
@@ -1622,8 +1697,10 @@ Proof.
   destruct (mtry s_client_transaction m') as [m'' tid]. cbn [fst] in K4.
   assert (K04 : keeps NP m m'') by (eapply keeps_trans; [exact K03|eapply keeps_incl; [apply NP_names|exact K4]]).
   destruct tid as [[t|]| |]; try exact (pm_tail_spec e peer port from m'' (x_p x) l1 x x' m K04 R (lb_refl _)).
-  pose proof (lb_get_transport (now_s e) (s2b "tcp") host pt t (x_p x)) as G.
-  destruct (get_transport (now_s e) (s2b "tcp") host pt t (x_p x)) as [p1 rk]. cbn [fst] in G.
+  set (host_r := if fx_resolved_key (e_fx e)
+                 then match get_ip (e_cfg e) host with Some i => i | None => host end else host).
+  pose proof (lb_get_transport (now_s e) (s2b "tcp") host_r pt t (x_p x)) as G.
+  destruct (get_transport (now_s e) (s2b "tcp") host_r pt t (x_p x)) as [p1 rk]. cbn [fst] in G.
   destruct rk as [key| |]; try exact (pm_tail_spec e peer port from m'' p1 l1 x x' m K04 R G).
   apply (pm_tail_spec e peer port from m'' _ l1 x x' m K04 R).
   eapply lb_trans; [exact G|apply lb_set_primary].
@@ -1720,9 +1797,10 @@ Definition static_hop (e : env) (m : message) : res (bytes * Z * bytes) :=
               | None => Err
               end
   end.
-(* no Route entry to follow, no static route for the To host, Request-URI designates the service *)
+(* no Route entry to follow (none at all, or only the proxy's own), no static route for the To host,
+   Request-URI designates the service *)
 Definition addressed_to_service (e : env) (from : stransport) (m : message) : Prop :=
-  is_request m = true /\ hvals (s2b "Route") (m_headers m) = [] /\
+  is_request m = true /\ route_consumed (e_cfg e) from m /\
   (forall v, static_hop e m <> Ok v) /\
   is_my_message (new_my_name (c_name (e_cfg e))) from m = true.
 Lemma hop_result_no_route e m : hvals (s2b "Route") (m_headers m) = [] -> hop_result e m = static_hop e m.
@@ -2227,17 +2305,30 @@ Proof.
   - intros -> E. rewrite Nat.eqb_refl in H. cbn in H. apply negb_true_iff in H. apply beq_neq in H. contradiction.
   - intros -> E. rewrite Nat.eqb_refl in H. cbn in H. apply negb_true_iff in H. apply beq_neq in H. contradiction.
 Qed.
+Definition route_consumed_b (c : cfg) (from : stransport) (m : message) : bool :=
+  match hvals (s2b "Route") (m_headers m) with
+  | [] => true
+  | [v0] => match sem_route v0 with Ok [rp] => own_route c from rp | _ => false end
+  | _ => false
+  end.
+Lemma route_consumed_b_sound c from m : route_consumed_b c from m = true -> route_consumed c from m.
+Proof.
+  unfold route_consumed_b, route_consumed. destruct (hvals (s2b "Route") (m_headers m)) as [|v0 [|v1 l]]; intros H.
+  - left. reflexivity.
+  - right. destruct (sem_route v0) as [[|rp [|rp' l']]| |] eqn:S; try discriminate.
+    exists v0, rp. split; [reflexivity|]. split; [exact S|exact H].
+  - discriminate.
+Qed.
 Definition addressed_to_service_b (e : env) (from : stransport) (m : message) : bool :=
-  is_request m && match hvals (s2b "Route") (m_headers m) with [] => true | _ => false end &&
+  is_request m && route_consumed_b (e_cfg e) from m &&
   match static_hop e m with Ok _ => false | _ => true end &&
   is_my_message (new_my_name (c_name (e_cfg e))) from m.
 Lemma addressed_to_service_b_sound e from m : addressed_to_service_b e from m = true -> addressed_to_service e from m.
 Proof.
   unfold addressed_to_service_b, addressed_to_service. intros H.
   apply andb_true_iff in H. destruct H as [H H4]. apply andb_true_iff in H. destruct H as [H H3].
-  apply andb_true_iff in H. destruct H as [H1 H2]. repeat split; try assumption.
-  - destruct (hvals _ _); [reflexivity|discriminate].
-  - intros v Hv. rewrite Hv in H3. discriminate.
+  apply andb_true_iff in H. destruct H as [H1 H2]. split; [exact H1|]. split; [apply route_consumed_b_sound; exact H2|].
+  split; [|exact H4]. intros v Hv. rewrite Hv in H3. discriminate.
 Qed.
 
 (* ================================================================== Part 8: a concrete history (non-vacuity) and the legacy witness *)
@@ -2285,6 +2376,7 @@ Definition ex_reinvite : bytes := sip [
   "Content-Length: 0"]%string.
 Definition ex_bye : bytes := sip [
   "BYE sip:bob@sip.example.com SIP/2.0";
+  "Route: <sip:10.0.0.1:5060;lr>";
   "Via: SIP/2.0/UDP 10.0.0.99:5060;branch=z9hG4bKua2";
   "From: <sip:alice@ua.example.org>;tag=a-1";
   "To: <sip:bob@sip.example.com>;tag=b-2";
@@ -2369,7 +2461,7 @@ Proof. vm_compute. split; reflexivity. Qed.
 (* before the repair of findBackendByDialog (fx_indialog_invite = false): the re-INVITE inside the
    pinned dialog goes to the rotation's next backend (.11) although the pin (.12) is live *)
 Definition legacy_fixes : fixes :=
-  {| fx_wiring := true; fx_udp_via_listener := true; fx_indialog_invite := false; fx_bracket_host := true |}.
+  {| fx_wiring := true; fx_udp_via_listener := true; fx_indialog_invite := false; fx_bracket_host := true; fx_resolved_key := true |}.
 Theorem C04_legacy_refuted :
   let h := firstn 4 ex_hist in
   let st3 := match run legacy_fixes ex_cfg ex_st0 (firstn 3 ex_hist) with Ok (s, _) => s | _ => ex_st0 end in
